@@ -166,12 +166,14 @@ pub fn jet_types(plan: &Plan) -> String {
         if let PNode::Jet(j) = n {
             if seen.insert(*j) {
                 s.push_str(&format!(
-                    " T:{}:{}:{} C:{}:{}",
+                    " T:{}:{}:{} C:{}:{} K:{}:{}",
                     j,
                     gen::final_text(&j.source_ty().to_final()),
                     gen::final_text(&j.target_ty().to_final()),
                     j,
-                    gen::hex(j.cmr().as_ref())
+                    gen::hex(j.cmr().as_ref()),
+                    j,
+                    j.cost()
                 ));
             }
         }
